@@ -1405,8 +1405,10 @@ class EAStoryReplace(ElementAction):
             raise MosMergeError(
                 f"{self.__class__.__name__} error in {self._message_label} - story not found"
             )
+        # read the replacement stories before anything is removed
+        new_stories = self.stories
         remove_node(parent=ro.base_tag, node=story)
-        for i, new_story in enumerate(self.stories, start=story_index):
+        for i, new_story in enumerate(new_stories, start=story_index):
             insert_node(parent=ro.base_tag, node=copy.deepcopy(new_story.xml), index=i)
         return ro
 
@@ -1476,8 +1478,10 @@ class EAItemReplace(ElementAction):
             raise MosMergeError(
                 f"{self.__class__.__name__} error in {self._message_label} - item not found"
             )
+        # read the replacement items before anything is removed
+        new_items = self.items
         remove_node(parent=story, node=item)
-        for i, new_item in enumerate(self.items, start=item_index):
+        for i, new_item in enumerate(new_items, start=item_index):
             insert_node(parent=story, node=copy.deepcopy(new_item.xml), index=i)
         return ro
 
